@@ -463,6 +463,8 @@ def gen_table(c):
         if t.chance(25):
             return []
         inl = gen_inlines(c, 1, True, False, 1 + t.below(2), True)
+        if t.chance(24) and not c.reflow:
+            inl = inl + [N('sp'), N('text', s=t.choice(['|', 'a|', '|b', 'a|b', '||']))]      # literal pipes (written escaped)
         return inl
 
     return N('table', aligns=[t.choice([None, None, 'left', 'center', 'right'] if not c.canonical else [None, None, 'center', 'right'])
